@@ -11,6 +11,8 @@ import Scc.Fun2Core.Model
 import Scc.Core.Uniquify
 import Scc.Core.Focus
 import Scc.Core2AxCut.Model
+import Scc.PMoves.Model
+import Scc.PMoves.Backends
 
 open Scc
 
@@ -39,6 +41,9 @@ def dispatch (line : String) : IO String := do
   let line := line.trimAscii.toString
   match line.splitOn " " with
   | "rt" :: rest => pure (Scc.Runtime.handleLineCur (" ".intercalate rest))
+  | "pmoves" :: rest =>
+    let l := " ".intercalate rest
+    pure (if l.startsWith "pm " || l.startsWith "subst " then Scc.PMoves.handleLine l else Scc.PMoves.handleLineBackends l)
   | ["stage", pass, file] => do
     let text ← IO.FS.readFile file
     match pass with
